@@ -638,8 +638,27 @@ def sequence_case(sh, i):
                     if s.env.now != t_before:
                         lc.fail('superseded_system_simulated', 'the rejected System advanced its clock')
             late = []
+            zombies = set()
+
+            def failed_creation():
+                """A construction the library refuses (it raises): the caller catches it and carries on.  Whatever
+                the library registered for it is remembered and left out of the look-up comparisons."""
+                from simprocesd.model.factory_floor import ActionScheduler
+                from simprocesd.model.sensors import PeriodicSensor, AttributeProbe
+                before = {id(a) for a in newest.find_assets()}
+                try:
+                    if rng.random() < 0.5:
+                        PeriodicSensor(-1, [AttributeProbe('name', newest)], name='bad_sensor')
+                    else:
+                        ActionScheduler([(-1, 'x')], name='bad_scheduler')
+                    sh.count('invalid_late_assets_accepted')
+                except (ValueError, AssertionError, TypeError):
+                    sh.count('late_constructions_refused')
+                zombies.update(id(a) for a in newest.find_assets() if id(a) not in before)
 
             def create_late():
+                if rng.random() < 0.35:
+                    failed_creation()
                 late.extend(make_assets(rng, 'late', rng.randint(1, 4)))
             create_late.__name__ = 'create_late'
             runs = rng.choice([1, 2, 3])
@@ -649,6 +668,8 @@ def sequence_case(sh, i):
                 newest.simulate(rng.choice([2, 3.5, 5]), print_summary=False)
                 simulated.add(newest)
                 if r + 1 < runs and rng.random() < 0.5:
+                    if rng.random() < 0.35:
+                        failed_creation()
                     mine.setdefault('between', []).extend(make_assets(rng, f'btw{r}', rng.randint(1, 3)))
             lc.final(simulated)
             for a in spawned:
@@ -671,7 +692,7 @@ def sequence_case(sh, i):
                     q['type_'] = rng.choice([PartHandler, PartProcessor, type(rng.choice(pool))])
                 if rng.random() < 0.4:
                     q['subtype'] = rng.choice([PartHandler, PartFlowController, Asset, PartProcessor])
-                got = newest.find_assets(**q)
+                got = [a for a in newest.find_assets(**q) if id(a) not in zombies]
                 want = [a for a in pool if ('name' not in q or a.name == q['name'])
                         and ('id_' not in q or a.id == q['id_'])
                         and ('type_' not in q or type(a) is q['type_'])
@@ -683,6 +704,7 @@ def sequence_case(sh, i):
                 sh.count('find_assets_queries')
             # the result of a look-up is the caller's: changing it must not change the registry
             res = newest.find_assets()
+            pool = [a for a in res if id(a) in zombies][:0] + pool      # (unchanged; zombies may sit anywhere in res)
             n_reg = len(res)
             res.append(None)
             res.pop(0)
